@@ -98,7 +98,12 @@ pub fn gen_fri_cfg(ch: &mut Chooser, max_log_domain: u32) -> FriCfg {
         }
         let log_domain = min_log + ch.index("fri.logdomain", (max_log_domain - min_log + 1) as usize) as u32;
         let folding = [2usize, 4, 8, 16][ch.weighted("fri.folding", &[3, 3, 2, 3])];
-        let rmax = [0usize, 1, 3, 7, 15, 31, 63, 127, 255][ch.weighted("fri.rmax", &[3, 2, 2, 3, 2, 2, 1, 1, 2])];
+        let mut rmax = [0usize, 1, 3, 7, 15, 31, 63, 127, 255][ch.weighted("fri.rmax", &[3, 2, 2, 3, 2, 2, 1, 1, 2])];
+        // FriOptions::new takes ANY remainder degree 0..255 (only ProofOptions insists on
+        // 2^k - 1): one configuration in four uses one that is not of that form (2, 4, 5, 6, 9, 11, ...)
+        if ch.chance("fri.rmax.any?", 1, 4) {
+            rmax = ch.biased("fri.rmax.value", 0, 255, &[2, 4, 5, 6, 9, 11, 12, 100, 254]) as usize;
+        }
         let domain = 1usize << log_domain;
         let nq = ch.biased("fri.queries", 1, (domain - 1).min(64) as u64, &[1, 2, 3, 7, 8, 32, 64]) as usize;
         let cfg = FriCfg { log_domain, blowup, folding, rmax, num_queries: nq };
